@@ -789,6 +789,19 @@ def check_filter_case(f, espec, rng=None):
             elif sel - ne - eq:
                 viol.append(dict(base, clause="!= holds of exactly the selected fields of which == does not hold",
                                  **{"class": "ne-and-eq-both-false"}, filter=text, got=sorted(sel - ne - eq)[:3]))
+    # freezing the logged message must not change what a filter says about the entry (nor must thawing it again)
+    if espec.get("type") in ("LLUDP", "FIXTURE") and x2 is None and hasattr(entry, "freeze"):
+        try:
+            entry.freeze()
+            o3, x3 = observe(node, entry, False)
+            _ = entry.message       # thaw
+            o4, x4 = observe(node, entry, False)
+        except Exception as ex:   # noqa
+            o3, x3, o4, x4 = "EXC:" + type(ex).__name__, ex, "-", None
+        if o3 != o2 or (x4 is None and o4 != o2):
+            viol.append(dict(base, clause="freezing and thawing a logged message yield an entry equal to the original: the same filter "
+                                          "gives the same answer before freeze(), while frozen, and after thawing",
+                             **{"class": "frozen-entry-answers-differently"}, filter=text, got="live %s ; frozen %s ; thawed %s" % (o2, o3, o4)))
     return obs, viol, text, None
 
 
